@@ -324,8 +324,16 @@ def oracle(s, obs):
     lines = [l[:-1] if l.endswith(b"\r") else l for l in complete]
 
     def id_of(l):
-        m = re.match(rb"^(\d+)(?:[ \t]|$)", l)
+        m = re.match(rb"^[ \t]*(\d+)(?:[ \t]|$)", l)
         return int(m.group(1)) if m else None
+
+    def wrapped(i):                       # what a 64-bit strtol assigned to an int makes of the number
+        if i is None:
+            return None
+        v = min(i, 2 ** 63 - 1) % 2 ** 32
+        return v - 2 ** 32 if v >= 2 ** 31 else v
+    big = any((id_of(l) or 0) > 2 ** 31 - 1 for l in lines)
+    wsig = ":channel-number-wrapped" if big else ""
     base = ("http://127.0.0.1:%05d/h47x%sx/" % (port, sid)).encode()
     for k in range(1, n + 1):
         t = toks[k - 1]
@@ -333,17 +341,23 @@ def oracle(s, obs):
             return ("oracle:odd-outcome", "request %d: unexpected outcome %s" % (k, t))
         if s["kind"] == "rw0":
             mine = [lines[k - 1]] if k - 1 < len(lines) else []
+            alias = []
         else:
             mine = [l for l in lines if id_of(l) == k]
+            alias = [l for l in lines if id_of(l) != k and wrapped(id_of(l)) == k]
         if s["kind"] == "acl":
             if t == "allow" and not any(re.search(rb"(^|[ \t])OK([ \t]|$)", l) for l in mine):
-                return ("oracle:verdict-misapplied", "request %d was allowed but no helper line carrying channel %d says OK" % (k, k))
+                w = any(re.search(rb"(^|[ \t])OK([ \t]|$)", l) for l in alias)
+                return ("oracle:verdict-misapplied" + (":channel-number-wrapped" if w else ""),
+                        "request %d was allowed but no helper line carrying channel %d says OK%s"
+                        % (k, k, " (a line numbered %s does)" % [id_of(l) for l in alias] if w else ""))
         elif t.startswith("rw:"):
             u = bytes.fromhex(t[3:])
             if not any(u in l for l in mine):
                 who = [id_of(l) for l in lines if u in l]
-                return ("oracle:reply-misapplied", "request %d (channel %d) was rewritten to %r, which the helper sent on channel(s) %s"
-                        % (k, k, u, who))
+                w = any(u in l for l in alias)
+                return ("oracle:reply-misapplied" + (":channel-number-wrapped" if w else ""),
+                        "request %d (channel %d) was rewritten to %r, which the helper sent on channel(s) %s" % (k, k, u, who))
         # completeness for helpers that follow the protocol exactly
         if s["kind"] == "rw0":
             continue
@@ -357,12 +371,12 @@ def oracle(s, obs):
         crlf = any(l.endswith(b"\r") for l in complete)
         if s["kind"] == "acl":
             if (text == b"OK" or text.startswith(b"OK ")) and t != "allow":
-                return ("oracle:reply-lost" + (":crlf" if crlf else ""),
+                return ("oracle:reply-lost" + (wsig or (":crlf" if crlf else "")),
                         "request %d: the helper answered `%s` on channel %d but the request was not allowed (%s)" % (k, text[:60], k, t))
         else:
             m = re.match(rb"^OK rewrite-url=(\S+)$", text)
             if m and m.group(1).startswith(base) and t != "rw:" + m.group(1).hex():
-                return ("oracle:reply-lost" + (":crlf" if crlf else ""),
+                return ("oracle:reply-lost" + (wsig or (":crlf" if crlf else "")),
                         "request %d: the helper answered `%s` on channel %d but the request went out as %s" % (k, text[:80], k, t))
     return None
 
